@@ -6,6 +6,7 @@ import (
 	"crypto/sha256"
 	"encoding/binary"
 	"encoding/hex"
+	"errors"
 	"fmt"
 	"hash"
 	"os"
@@ -82,7 +83,9 @@ type SyncOpts struct {
 	SFaults                               []hstream.Fault
 	RFaults                               []hstream.Fault
 	Setup                                 func(conn *hstream.Conn, cancelS, cancelR context.CancelFunc) // extra fault wiring
-	HasherErrAt, NotifyErrAt, FilterErrAt int                                                           // 1-based call index, 0 = never
+	SetupCallOnly                         func(conn *hstream.Conn, cancelS, cancelR context.CancelFunc)
+	Unpriv                                bool // run both calls without CAP_DAC_OVERRIDE
+	HasherErrAt, NotifyErrAt, FilterErrAt int  // 1-based call index, 0 = never
 	Gate                                  func(ep, op string, k int)
 	Quiet                                 bool
 	Timeout                               time.Duration
@@ -107,6 +110,8 @@ type SyncResult struct {
 	After                    model.Tree
 	Conn                     *hstream.Conn
 }
+
+var errUnprivUnsupported = errors.New("capability drop unsupported in this build")
 
 var leakSeen sync.Map
 
@@ -215,6 +220,10 @@ func RunSync(caseNo int, srcDir, dstDir string, o SyncOpts) (*SyncResult, error)
 	if o.Setup != nil {
 		o.Setup(conn, func() { scancel(); conn.S.Cancel() }, func() { rcancel(); conn.R.Cancel() })
 	}
+	if o.SetupCallOnly != nil {
+		// cancellation of the context handed to the call only; the stream does not observe it
+		o.SetupCallOnly(conn, scancel, rcancel)
+	}
 
 	var hasherN, notifyN, filterN int
 	var cbMu sync.Mutex
@@ -294,6 +303,13 @@ func RunSync(caseNo int, srcDir, dstDir string, o SyncOpts) (*SyncResult, error)
 	}
 
 	res := &SyncResult{Conn: conn}
+	if o.Unpriv {
+		// the calls run without CAP_DAC_OVERRIDE (an unprivileged owner of both trees)
+		if err := setDacOverride(false); err != nil {
+			return nil, errUnprivUnsupported
+		}
+		defer setDacOverride(true)
+	}
 	sDone, rDone := make(chan struct{}), make(chan struct{})
 	go func() {
 		defer close(sDone)
@@ -415,6 +431,9 @@ func RunSync(caseNo int, srcDir, dstDir string, o SyncOpts) (*SyncResult, error)
 			}
 			conn.Log(vt.Ev{"ev": "Leak", "frames": leaked})
 		}
+	}
+	if o.Unpriv {
+		setDacOverride(true)
 	}
 	after, err := disk.Snapshot(dstDir, false)
 	if err != nil {
